@@ -1,0 +1,36 @@
+//go:build verif
+// +build verif
+
+package rockredis
+
+import "time"
+
+// VerifRunLocalExpire runs the background pass of the local-deletion expiry policy once,
+// synchronously: one TTLChecker scan at the current wall clock followed by the commit of
+// what it collected, repeated while the buffer fills up. It reports false if the store
+// does not use the local-deletion policy.
+func VerifRunLocalExpire(db *RockDB) (bool, error) {
+	exp, ok := db.expiration.(*localExpiration)
+	if !ok {
+		return false, nil
+	}
+	buf := newLocalBatchedBuffer(db, localBatchedBufSize)
+	defer buf.Destroy()
+	stop := make(chan struct{})
+	for {
+		exp.TTLChecker.setNextCheckTime(0, true)
+		err := exp.TTLChecker.check(buf, stop)
+		buf.commit()
+		if err == ErrLocalBatchedBuffFull {
+			continue
+		}
+		return true, err
+	}
+}
+
+// VerifSetLazyCleanExpired changes how long the compaction filter keeps expired data.
+func VerifSetLazyCleanExpired(d time.Duration) time.Duration {
+	old := lazyCleanExpired
+	lazyCleanExpired = d
+	return old
+}
